@@ -816,6 +816,13 @@ MUTANTS = [
             tbb::detail::throw_exception(exception_id::bad_alloc);
         }""",
         """        (void)pthread_key_create(&my_key, nullptr);""")]),
+    dict(name='c20-seed4-recall-flag-raised-before-the-stack-state', prop='C20', clause='D3', edits=[('src/tbb/scheduler_common.h',
+        """        m_stack_state.store(stack_state::notified, std::memory_order_relaxed);
+        m_is_owner_recalled.store(true, std::memory_order_release);""",
+        """        m_is_owner_recalled.store(true, std::memory_order_release);
+        m_stack_state.store(stack_state::notified, std::memory_order_relaxed);""")]),
+    dict(name='c01-seed4-execute-tests-the-slot-before-registering', prop='C01', clause='D9', edits=[('src/tbb/arena.cpp', '                a->my_exit_monitors.prepare_wait(waiter);\n                if (!wo.continue_execution()) {\n                    a->my_exit_monitors.cancel_wait(waiter);\n                    break;\n                }\n                index2 = a->occupy_free_slot</*as_worker*/false>(*td);\n                if (index2 != arena::out_of_arena) {\n                    a->my_exit_monitors.cancel_wait(waiter);\n                    nested_arena_context scope(*td, *a, index2 );', '                index2 = a->occupy_free_slot</*as_worker*/false>(*td);\n                if (index2 != arena::out_of_arena) {\n                    nested_arena_context scope(*td, *a, index2 );'), ('src/tbb/arena.cpp', '                    break;\n                }\n                a->my_exit_monitors.commit_wait(waiter);', '                    break;\n                }\n                a->my_exit_monitors.prepare_wait(waiter);\n                if (!wo.continue_execution()) {\n                    a->my_exit_monitors.cancel_wait(waiter);\n                    break;\n                }\n                a->my_exit_monitors.commit_wait(waiter);')]),
+    dict(name='c02-seed4-execute-tests-the-slot-before-registering', prop='C02', clause='D2', edits=[('src/tbb/arena.cpp', '                a->my_exit_monitors.prepare_wait(waiter);\n                if (!wo.continue_execution()) {\n                    a->my_exit_monitors.cancel_wait(waiter);\n                    break;\n                }\n                index2 = a->occupy_free_slot</*as_worker*/false>(*td);\n                if (index2 != arena::out_of_arena) {\n                    a->my_exit_monitors.cancel_wait(waiter);\n                    nested_arena_context scope(*td, *a, index2 );', '                index2 = a->occupy_free_slot</*as_worker*/false>(*td);\n                if (index2 != arena::out_of_arena) {\n                    nested_arena_context scope(*td, *a, index2 );'), ('src/tbb/arena.cpp', '                    break;\n                }\n                a->my_exit_monitors.commit_wait(waiter);', '                    break;\n                }\n                a->my_exit_monitors.prepare_wait(waiter);\n                if (!wo.continue_execution()) {\n                    a->my_exit_monitors.cancel_wait(waiter);\n                    break;\n                }\n                a->my_exit_monitors.commit_wait(waiter);')]),
     dict(name='c01-seed3-run-and-wait-handle-epilogue-on-exception-only', prop='C01', clause='D9', edits=[('include/oneapi/tbb/task_group.h',
         """            execute_and_wait(*acs::release(h), context(), m_wait_vertex.get_context(), context());
         }).on_completion([&] {""",
@@ -1795,6 +1802,7 @@ BENIGN = [
         """        if (pthread_key_create(&my_key, nullptr) != 0) {""",
         """        const int status = pthread_key_create(&my_key, nullptr);
         if (status) {""")]),
+    dict(name='c02-b-execute-slot-in-a-local', prop='C02', edits=[('src/tbb/arena.cpp', '                index2 = a->occupy_free_slot</*as_worker*/false>(*td);\n                if (index2 != arena::out_of_arena) {\n                    a->my_exit_monitors.cancel_wait(waiter);', '                const size_t slot = a->occupy_free_slot</*as_worker*/false>(*td);\n                index2 = slot;\n                if (slot != arena::out_of_arena) {\n                    a->my_exit_monitors.cancel_wait(waiter);')]),
     dict(name='c01-b-group-wait-epilogue-in-a-named-lambda', prop='C01', edits=[('include/oneapi/tbb/task_group.h',
         """        try_call([&] {
             d1::wait(m_wait_vertex.get_context(), context());
